@@ -452,7 +452,7 @@ func c14Feat(s *Svc, m *spec.Method, p *Place) string {
 	f := m.Feat
 	loc, req, tc := f["loc"], f["req"], "none"
 	if p != nil {
-		loc, req, tc = p.Loc, p.Req, typeClass(s.Spec, p.T)
+		loc, req, tc = p.Loc, reqLabel(s.Spec, m, p), typeClass(s.Spec, p.T)
 	}
 	if f["valid"] != "" {
 		return fmt.Sprintf("valid=%s pos=%s loc=%s req=%s type=%s", f["valid"], f["pos"], loc, req, tc)
@@ -828,6 +828,29 @@ func c14Malformed(s *Svc, m *spec.Method, l *Layout, o *c14Op, r *MethodResult) 
 				}
 			}
 		}
+		// "absent": the parameter is dropped from the otherwise valid request (the typed client
+		// cannot omit a required parameter). The server's decision (missing_field for a required
+		// one) must equal the document's (required: true rejects).
+		switch p.Loc {
+		case spec.LocQuery:
+			vs = append(vs, variant{"query-absent", func(req *http.Request, _ *[]byte) {
+				q := req.URL.Query()
+				q.Del(p.Wire)
+				req.URL.RawQuery = q.Encode()
+			}})
+		case spec.LocHeader:
+			vs = append(vs, variant{"header-absent", func(req *http.Request, _ *[]byte) { req.Header.Del(p.Wire) }})
+		case spec.LocCookie:
+			vs = append(vs, variant{"cookie-absent", func(req *http.Request, _ *[]byte) {
+				old := req.Cookies()
+				req.Header.Del("Cookie")
+				for _, ck := range old {
+					if ck.Name != p.Wire {
+						req.AddCookie(&http.Cookie{Name: ck.Name, Value: ck.Value})
+					}
+				}
+			}})
+		}
 		if p.Loc == spec.LocBody && l.BodyKind == "object" {
 			if e.K != spec.KString && e.K != spec.KAny && e.K != spec.KBytes {
 				vs = append(vs, variant{"body-wrong-json-type", func(_ *http.Request, body *[]byte) { *body = []byte(`{"` + p.Wire + `":"zz"}`) }})
@@ -892,7 +915,7 @@ func c14Malformed(s *Svc, m *spec.Method, l *Layout, o *c14Op, r *MethodResult) 
 				if len(others) > 0 {
 					oth = strings.Join(others, "+")
 				}
-				ts := fmt.Sprintf("variant=%s type=%s loc=%s req=%s others=%s", vr.kind, typeClass(sp, p.T), p.Loc, p.Req, oth)
+				ts := fmt.Sprintf("variant=%s type=%s loc=%s req=%s others=%s", vr.kind, typeClass(sp, p.T), p.Loc, reqLabel(sp, m, p), oth)
 				var sigs []string
 				fail := func(sig, what string) {
 					sigs = append(sigs, sig)
